@@ -14,7 +14,7 @@ from . import devices
 from .runsim import BOT, FILEMAP, FOREIGN_BYTES, fs_state, read_frames
 
 MAGS = [1.0, 1e-3, 1e-6]
-CLASSES = ["currents", "currents_t", "epsilon", "options", "terminal", "seed", "ashape", "polygon", "device"]
+CLASSES = ["currents", "currents_t", "epsilon", "options", "options_reused", "terminal", "seed", "ashape", "polygon", "device"]
 
 
 def matrix(ctx):
@@ -24,9 +24,10 @@ def matrix(ctx):
         for d in devs:
             for mag in MAGS:
                 for outm in ("temp", "path"):
-                    variants = {"options": 6, "polygon": 3, "device": 4, "epsilon": 3, "currents_t": 2}.get(cls, 1)
+                    variants = {"options": 9, "options_reused": 9, "polygon": 9, "device": 4, "epsilon": 3, "currents_t": 2}.get(cls, 1)
                     for v in range(variants):
-                        if cls in ("options", "polygon", "device", "terminal", "seed", "ashape") and mag != 1.0 and not (cls == "options" and v in (0, 1)):
+                        if cls in ("options", "options_reused", "polygon", "device", "terminal", "seed", "ashape") and mag != 1.0 \
+                                and not (cls in ("options", "options_reused") and v in (0, 1)) and not (cls == "polygon" and v >= 3):
                             continue
                         out.append(dict(cls=cls, dev=d, mag=mag, out=outm, variant=v))
     # well-posed controls: the same pipeline must NOT reject them (and then files do appear)
@@ -115,19 +116,16 @@ def illposed_run(tdgl, p, base_tmp=None):
                     def eps_t(r, *, t, mag=mag):
                         return 1.0 + mag
                     solve_kw["disorder_epsilon"] = eps_t
-            elif cls == "options":
-                if v == 0:
-                    kw.update(dt_init=0.1 * (1 + mag), dt_max=0.1)
-                elif v == 1:
-                    kw.update(terminal_psi=1.0 + mag)
-                elif v == 2:
-                    kw.update(adaptive_time_step_multiplier=1.0)
-                elif v == 3:
-                    kw.update(screening_step_drag=0.0)
-                elif v == 4:
-                    kw.update(screening_tolerance=0.0)
+            elif cls in ("options", "options_reused"):
+                bad = [dict(dt_init=0.1 * (1 + mag), dt_max=0.1), dict(terminal_psi=1.0 + mag), dict(adaptive_time_step_multiplier=1.0),
+                       dict(screening_step_drag=0.0), dict(screening_tolerance=0.0), dict(sparse_solver="no-such-solver"),
+                       dict(screening_step_size=0.0), dict(screening_step_drag=1.5), dict(adaptive_time_step_multiplier=0.0)][v]
+                if cls == "options":
+                    kw.update(bad)
                 else:
-                    kw.update(sparse_solver="no-such-solver")
+                    # history on one options object: it is valid, validated and used once (also through a
+                    # constructed solver), copied/unpickled, and only THEN made inconsistent
+                    reused = bad
             elif cls == "terminal":
                 layer = dev.layer
                 film = tdgl.Polygon("film", points=box(5, 3, points=48))
@@ -161,8 +159,25 @@ def illposed_run(tdgl, p, base_tmp=None):
                     tdgl.Polygon("bow", points=[(0, 0), (1, 1), (1, 0), (0, 1)])       # self-intersecting
                 elif v == 1:
                     tdgl.Polygon("line", points=[(0, 0), (1, 1)])                       # degenerate
-                else:
+                elif v == 2:
                     tdgl.Polygon("wrong", points=np.zeros((4, 3)))                      # wrong shape
+                else:
+                    # outline that back-tracks over itself (zero-width spike A,B,A or a detour along its own edge):
+                    # invalid ("Self-intersection"); spike length = mag-scaled, inward/outward, as film / hole / terminal
+                    L = {1.0: 1.0, 1e-3: 1e-3, 1e-6: 8e-6}[mag]
+                    sq = [(-2.0, -1.5), (2.0, -1.5), (2.0, 1.5), (-2.0, 1.5)]
+                    if v in (3, 6):      # outward spike on the right edge
+                        pts = [sq[0], sq[1], (2.0, 0.0), (2.0 + L, 0.0), (2.0, 0.0), sq[2], sq[3]]
+                    elif v in (4, 7):    # inward spike
+                        pts = [sq[0], sq[1], (2.0, 0.0), (2.0 - L, 0.0), (2.0, 0.0), sq[2], sq[3]]
+                    else:                # detour along its own edge
+                        pts = [sq[0], sq[1], (2.0, 0.5 * L), (2.0, 0.0), (2.0, 0.5 * L), sq[2], sq[3]]
+                    poly = tdgl.Polygon("spiky", points=pts)
+                    if v >= 6:           # went through: use it as a hole / film of a device and simulate
+                        film = tdgl.Polygon("film", points=box(8, 6, points=40))
+                        d2 = tdgl.Device("spiky", layer=dev.layer, film=film, holes=[poly])
+                        d2.make_mesh(max_edge_length=1.0)
+                        tdgl.solve(d2, tdgl.SolverOptions(**kw), applied_vector_potential=0.1)
                 raise RuntimeError("polygon accepted")
             elif cls == "device":
                 layer = dev.layer
@@ -178,6 +193,14 @@ def illposed_run(tdgl, p, base_tmp=None):
                     tdgl.Device("d", layer=layer, film=tdgl.Polygon(points=box(5, 3, points=48)))   # unnamed film
                 raise RuntimeError("device accepted")
             opts = tdgl.SolverOptions(**kw)
+            if cls == "options_reused":
+                import copy as _copy
+                import pickle as _pickle
+                opts.validate()
+                TDGLSolver(dev, opts, **solve_kw)                  # a first, well-posed use of the same object
+                opts = [opts, _copy.copy(opts), _copy.deepcopy(opts), _pickle.loads(_pickle.dumps(opts))][v % 4]
+                for key, val in reused.items():
+                    setattr(opts, key, val)
             # ---------------- constructor phase
             phase = "ctor"
             solver = TDGLSolver(dev, opts, **solve_kw)
